@@ -1,5 +1,5 @@
 ---- MODULE MC_PubSub_2x2 ----
 (* Thorough instance: 2 x 2 behind the VIEW that hides the ghost history (SysView).  NChunks = 9.  *)
 EXTENDS PubSub
-QV == [maxpubs |-> 2, maxsubs |-> 2, bufmax |-> 2, hist |-> 1, borrow |-> 1, loan |-> 1, overflow |-> TRUE, strategy |-> "discard"]
+QV == [maxpubs |-> 2, maxsubs |-> 2, bufmax |-> 2, hist |-> 1, borrow |-> 1, loan |-> 1, overflow |-> TRUE, strategy |-> "discard", expbuf |-> 64]
 ====
